@@ -4,8 +4,8 @@
 //   J <k> <seed>                              unrelated work: allocate k blocks of pseudo-random sizes, free most of
 //                                             them in scrambled order, keep the rest until the next J; also runs a
 //                                             small unrelated router and VPSC instance so that library statics are touched
-//   V <n> <m> (desired weight)*n (l r gap eq)*m     vpsc::IncSolver(vs,cs).solve(); prints positions (hex floats) and the
-//                                             unsatisfiable flag of every constraint
+//   V <n> <m> (desired weight)*n (l r gap eq)*m     vpsc::IncSolver(vs,cs).solve(); prints positions (hex floats), the
+//                                             unsatisfiable flag and the active flag of every constraint
 //   A <mode> <pen> <ns> (x0 y0 x1 y1)*ns <nc> (sx sy dx dy)*nc    libavoid: mode 0 polyline, 1 orthogonal; rectangles and
 //                                             free connector ends; prints every raw route (hex floats)
 //   P <seed> <k>                              cola::PseudoRandom(seed): k values of getNext()
@@ -94,6 +94,8 @@ int main()
                 for (int i = 0; i < n; i++) printf(" %a", vs[i]->finalPosition);
                 printf(" |");
                 for (int i = 0; i < m; i++) printf(" %d", (int)cs[i]->unsatisfiable);
+                printf(" |");   // Constraint::active after solve(): the forest the KKT certificate is computed from
+                for (int i = 0; i < m; i++) printf(" %d", (int)cs[i]->active);
                 printf("\n");
             }
             for (int i = 0; i < m; i++) delete cs[i];
